@@ -224,7 +224,7 @@ theorem P_kwLenBound (cfg : Cfg) (ty t : String) (lt : Bool) (len : Json → Opt
   unfold kwLenBound; inv_tac H
 
 theorem P_leaf (impl : FmtImpl) (cfg : Cfg) (v inst schema : Json) :
-    P (kwConst v inst) ∧ P (kwMultipleOf cfg v inst) ∧ P (kwUniqueItems env cfg v inst)
+    P (kwConst v inst) ∧ P (kwMultipleOf cfg v inst) ∧ P (kwUniqueItems cfg v inst)
     ∧ P (kwPattern env cfg v inst) ∧ P (kwFormat env impl cfg v inst) ∧ P (kwEnum v inst)
     ∧ P (kwType cfg v inst) ∧ P (kwRequired cfg v inst)
     ∧ P (kwMinimumDraft3Draft4 cfg v inst schema) ∧ P (kwMaximumDraft3Draft4 cfg v inst schema) := by
